@@ -1428,12 +1428,18 @@ func (p *PikeVM) addThread(t thread, haystack []byte, pos int) {
 		// For alternation: left=first alt, right=second alt → first alt explored first
 		left, right := state.Split()
 
+		// Take the right branch's reference before exploring the left branch:
+		// the left branch may reach a capture state, and with a single owner it
+		// would update the shared slots in place and leak into the right branch.
+		var rightCaps cowCaptures
+		if right != InvalidState {
+			rightCaps = t.captures.clone()
+		}
 		if left != InvalidState {
 			p.addThread(thread{state: left, startPos: t.startPos, captures: t.captures}, haystack, pos)
 		}
 		if right != InvalidState {
-			// Clone captures for right branch to ensure COW works properly.
-			p.addThread(thread{state: right, startPos: t.startPos, captures: t.captures.clone()}, haystack, pos)
+			p.addThread(thread{state: right, startPos: t.startPos, captures: rightCaps}, haystack, pos)
 		}
 
 	case StateCapture:
@@ -1531,11 +1537,17 @@ func (p *PikeVM) addThreadToNext(t thread, haystack []byte, pos int) {
 	case StateSplit:
 		left, right := state.Split()
 
+		// Reference for the right branch first (see addThread): the left branch
+		// must not update slots in place that the right branch still shares.
+		var rightCaps cowCaptures
+		if right != InvalidState {
+			rightCaps = t.captures.clone()
+		}
 		if left != InvalidState {
 			p.addThreadToNext(thread{state: left, startPos: t.startPos, captures: t.captures}, haystack, pos)
 		}
 		if right != InvalidState {
-			p.addThreadToNext(thread{state: right, startPos: t.startPos, captures: t.captures.clone()}, haystack, pos)
+			p.addThreadToNext(thread{state: right, startPos: t.startPos, captures: rightCaps}, haystack, pos)
 		}
 		return
 
